@@ -541,6 +541,16 @@ class Abs(Abstractor):
         super().__init__(atom)
         self.repo, self.modname, self.cls_qual = repo, modname, cls_qual
 
+    def boolean(self, e):
+        if not getattr(self, "_simplified", False):
+            self._simplified = True
+            try:
+                e = simplify_bool(e)
+                return super().boolean(e)
+            finally:
+                self._simplified = False
+        return super().boolean(e)
+
     def term(self, e):
         e2 = e
         if self.repo is not None and self.cls_qual and any(isinstance(n, ast.Attribute) for n in ast.walk(e)):
@@ -887,3 +897,115 @@ def guarded(ctx, rule, modname, qual, f, *args):
     except Exception as ex:     # noqa: BLE001
         ctx.undecided(rule, Site("mouette." + modname, qual, 0), f"{qual}: the recogniser does not handle this code", f"{type(ex).__name__}: {str(ex)[:120]}")
     return None
+
+
+# ----------------------------------------------------------------- boolean simplification of canonical conditions
+def _const_bool(e):
+    return e.value if isinstance(e, ast.Constant) and isinstance(e.value, bool) else None
+
+
+def simplify_bool(e):
+    """Push comparisons / `is None` tests through conditional expressions, decide tests on literal None, fold and / or / not with
+    constants.  The result is equivalent to `e` as a truth value (a sub-test that is never evaluated because a constant decides the
+    conjunction / disjunction before it is dropped)."""
+    T, F = ast.Constant(value=True), ast.Constant(value=False)
+
+    def assume(x, t, val):
+        """x with every occurrence of the test t (or its negation) replaced by the constant it has"""
+        key = au.norm(t)
+        neg_key = au.norm(t.operand) if isinstance(t, ast.UnaryOp) and isinstance(t.op, ast.Not) else None
+
+        class A(ast.NodeTransformer):
+            def visit(self, node):
+                if isinstance(node, ast.expr):
+                    k = au.norm(node)
+                    if k == key:
+                        return ast.Constant(value=val)
+                    if neg_key is not None and k == neg_key:
+                        return ast.Constant(value=not val)
+                return super().visit(node)
+        return A().visit(sym.clone(x))
+
+    def ite(t, a, b):
+        ct = _const_bool(t)
+        if ct is not None:
+            return a if ct else b
+        if _const_bool(a) is None:
+            a = rec(assume(a, t, True))
+        if _const_bool(b) is None:
+            b = rec(assume(b, t, False))
+        ca, cb = _const_bool(a), _const_bool(b)
+        if ca is not None and cb is not None:
+            if ca == cb:
+                return a
+            return t if ca else neg(t)
+        return disj([conj([t, a]), conj([neg(t), b])])
+
+    def neg(x):
+        c = _const_bool(x)
+        if c is not None:
+            return F if c else T
+        if isinstance(x, ast.UnaryOp) and isinstance(x.op, ast.Not):
+            return x.operand
+        return ast.UnaryOp(op=ast.Not(), operand=x)
+
+    def conj(vs):
+        out = []
+        for v in vs:
+            c = _const_bool(v)
+            if c is False:
+                return F
+            if c is None:
+                out.append(v)
+        return T if not out else (out[0] if len(out) == 1 else ast.BoolOp(op=ast.And(), values=out))
+
+    def disj(vs):
+        out = []
+        for v in vs:
+            c = _const_bool(v)
+            if c is True:
+                return T
+            if c is None:
+                out.append(v)
+        return F if not out else (out[0] if len(out) == 1 else ast.BoolOp(op=ast.Or(), values=out))
+
+    def is_literal(v):
+        return not isinstance(v, (ast.BoolOp, ast.IfExp, ast.Constant)) and not (isinstance(v, ast.UnaryOp) and isinstance(v.operand, (ast.BoolOp, ast.IfExp)))
+
+    def rec(x, _depth=0):
+        if isinstance(x, ast.BoolOp):
+            vs = [rec(v) for v in x.values]
+            if _depth < 3:
+                # a literal operand of a conjunction holds inside the other operands (its negation inside those of a disjunction)
+                is_and = isinstance(x.op, ast.And)
+                if len(vs) > 1 and any(not is_literal(v) for v in vs):
+                    new = []
+                    for i, v in enumerate(vs):
+                        if not is_literal(v) and _const_bool(v) is None:
+                            for j, l in enumerate(vs):
+                                if j != i and _const_bool(l) is None:
+                                    v = assume(v, l, is_and)
+                            v = rec(v, _depth + 1)
+                        new.append(v)
+                    vs = new
+            return conj(vs) if isinstance(x.op, ast.And) else disj(vs)
+        if isinstance(x, ast.UnaryOp) and isinstance(x.op, ast.Not):
+            return neg(rec(x.operand))
+        if isinstance(x, ast.IfExp):
+            return ite(rec(x.test), rec(x.body), rec(x.orelse))
+        if isinstance(x, ast.Compare) and len(x.ops) == 1:
+            l, r = x.left, x.comparators[0]
+            if isinstance(l, ast.IfExp):
+                return ite(rec(l.test), rec(ast.Compare(left=l.body, ops=x.ops, comparators=[r])), rec(ast.Compare(left=l.orelse, ops=x.ops, comparators=[r])))
+            if isinstance(r, ast.IfExp):
+                return ite(rec(r.test), rec(ast.Compare(left=l, ops=x.ops, comparators=[r.body])), rec(ast.Compare(left=l, ops=x.ops, comparators=[r.orelse])))
+            if isinstance(x.ops[0], (ast.Is, ast.IsNot)) and isinstance(r, ast.Constant) and r.value is None:
+                val = None
+                if isinstance(l, ast.Constant):
+                    val = l.value is None
+                elif isinstance(l, (ast.Tuple, ast.List, ast.Dict, ast.Lambda, ast.JoinedStr)) or (isinstance(l, ast.Call) and au.call_tail(l) in ("dot", "len", "abs", "float", "int")):
+                    val = False
+                if val is not None:
+                    return T if (val == isinstance(x.ops[0], ast.Is)) else F
+        return x
+    return rec(e)
